@@ -169,7 +169,7 @@ mod v_iface_ingress {
         }
     }
 
-    // @harness props=C11,C10 cfg=KI4 tier=q to=1500 mem=12 unwind=8 opts=nomem covers=4 funcs=InterfaceInner::process_ip;InterfaceInner::process_ipv4;InterfaceInner::process_tcp;tcp::Socket::accepts;tcp::Socket::process;tcp::Socket::rst_reply bounds=raw-IP_medium;_own_address_192.168.1.1/24;_any_IPv4_source_and_destination;_any_ports,_flags,_seq/ack;_socket_set:_one_TCP_listener_on_port_80
+    // @harness props=C11,C10:t cfg=KI4 tier=q to=1500 mem=12 unwind=8 opts=nomem covers=4 funcs=InterfaceInner::process_ip;InterfaceInner::process_ipv4;InterfaceInner::process_tcp;tcp::Socket::accepts;tcp::Socket::process;tcp::Socket::rst_reply bounds=raw-IP_medium;_own_address_192.168.1.1/24;_any_IPv4_source_and_destination;_any_ports,_flags,_seq/ack;_socket_set:_one_TCP_listener_on_port_80
     #[cfg(feature = "socket-tcp")]
     #[kani::proof]
     pub(crate) fn ipv4_addr_tcp() {
@@ -479,7 +479,7 @@ mod v_iface_ingress {
         len
     }
 
-    // @harness props=C08,C11 cfg=KI4 tier=q to=900 mem=8 unwind=10 opts=nomem covers=2 funcs=InterfaceInner::process_ip;wire::Ipv4Repr::parse;wire::UdpRepr::parse bounds=raw-IP_medium,_rx_checksums_on;_well-formed_UDP_datagram_for_the_bound_socket_with_an_arbitrary_WRONG_checksum_field_(IP_header_or_UDP)
+    // @harness props=C08,C11:t cfg=KI4 tier=q to=900 mem=8 unwind=10 opts=nomem covers=2 funcs=InterfaceInner::process_ip;wire::Ipv4Repr::parse;wire::UdpRepr::parse bounds=raw-IP_medium,_rx_checksums_on;_well-formed_UDP_datagram_for_the_bound_socket_with_an_arbitrary_WRONG_checksum_field_(IP_header_or_UDP)
     #[cfg(feature = "socket-udp")]
     #[kani::proof]
     pub(crate) fn cksum_drop_no_effect_udp() {
@@ -491,7 +491,7 @@ mod v_iface_ingress {
         crate::vassert!(udp_untouched(&sockets, uh), "prop:c08_bad_checksum_has_no_effect_on_sockets");
     }
 
-    // @harness props=C08,C11 cfg=KI4 tier=q to=900 mem=8 unwind=10 opts=nomem covers=2 funcs=InterfaceInner::process_ip;wire::Ipv4Repr::parse;wire::TcpRepr::parse bounds=raw-IP_medium,_rx_checksums_on;_well-formed_TCP_SYN_for_the_listener_with_an_arbitrary_WRONG_checksum_field_(IP_header_or_TCP)
+    // @harness props=C08,C11:t cfg=KI4 tier=q to=900 mem=8 unwind=10 opts=nomem covers=2 funcs=InterfaceInner::process_ip;wire::Ipv4Repr::parse;wire::TcpRepr::parse bounds=raw-IP_medium,_rx_checksums_on;_well-formed_TCP_SYN_for_the_listener_with_an_arbitrary_WRONG_checksum_field_(IP_header_or_TCP)
     #[cfg(feature = "socket-tcp")]
     #[kani::proof]
     pub(crate) fn cksum_drop_no_effect_tcp() {
@@ -503,7 +503,7 @@ mod v_iface_ingress {
         crate::vassert!(tcp_untouched(&sockets, th), "prop:c08_bad_checksum_has_no_effect_on_sockets");
     }
 
-    // @harness props=C08,C11 cfg=KI4 tier=q to=900 mem=8 unwind=10 opts=nomem covers=2 funcs=InterfaceInner::process_ip;wire::Ipv4Repr::parse;wire::Icmpv4Repr::parse bounds=raw-IP_medium,_rx_checksums_on;_well-formed_ICMP_echo_request_with_an_arbitrary_WRONG_checksum_field_(IP_header_or_ICMP)
+    // @harness props=C08,C11:t cfg=KI4 tier=q to=900 mem=8 unwind=10 opts=nomem covers=2 funcs=InterfaceInner::process_ip;wire::Ipv4Repr::parse;wire::Icmpv4Repr::parse bounds=raw-IP_medium,_rx_checksums_on;_well-formed_ICMP_echo_request_with_an_arbitrary_WRONG_checksum_field_(IP_header_or_ICMP)
     #[cfg(feature = "socket-icmp")]
     #[kani::proof]
     pub(crate) fn cksum_drop_no_effect_icmp() {
